@@ -229,17 +229,44 @@ def match_values(fi):
             names.add(s.target.id)
     if 'match' in fi.params():
         names.add('match')
+    # an attribute of self that the constructor binds to a match
+    if fi.cls is not None and fi.params():
+        init = fi.cls.methods.get('__init__')
+        if init is not None and 'match' in init.params():
+            for st in model.walk_shallow(init.node):
+                if isinstance(st, ast.Assign) and isinstance(
+                        st.value, ast.Name) and st.value.id == 'match':
+                    for t in st.targets:
+                        if isinstance(t, ast.Attribute) and isinstance(
+                                t.value, ast.Name):
+                            names.add('%s.%s' % (fi.params()[0], t.attr))
     return names
 
 
 def check_match_api(repo, rep):
     mod = repo.module(R)
     n = 0
+    param_kinds = {}     # function key -> {parameter: kind}, from callers
+    for round_ in range(3):
+        n = 0
+        n = _match_api_pass(repo, rep if round_ == 2 else None, mod,
+                            param_kinds)
+    rep.floor('re.Match API obligations', n, 3)
+
+
+def _match_api_pass(repo, rep, mod, param_kinds):
+    class _Quiet:
+        def ob(self, *a, **k):
+            pass
+    real = rep
+    rep = rep or _Quiet()
+    n = 0
     for q, fi in mod.functions.items():
         ms = match_values(fi)
-        if not ms:
+        kinds = dict(param_kinds.get(fi.key, {}))
+        # what this function hands to helpers of the module
+        if not ms and not kinds:
             continue
-        kinds = {}      # local name -> 'index' | 'name' | 'value'
         for loop in [x for x in model.walk_shallow(fi.node)
                      if isinstance(x, ast.For)]:
             it = loop.iter
@@ -257,11 +284,10 @@ def check_match_api(repo, rep):
                 continue
             meth = src.func.attr
             base = src.func.value
-            on_match = isinstance(base, ast.Name) and base.id in ms
+            on_match = model.norm(base) in ms
             on_groupdict = isinstance(base, ast.Call) and isinstance(
                 base.func, ast.Attribute) and base.func.attr == \
-                'groupdict' and isinstance(base.func.value, ast.Name) and \
-                base.func.value.id in ms
+                'groupdict' and model.norm(base.func.value) in ms
             if not (on_match and meth == 'groups' or on_groupdict and
                     meth in ARITY):
                 continue
@@ -296,9 +322,38 @@ def check_match_api(repo, rep):
                 kinds[tnames[0]] = 'name'
         for c in model.calls_in(fi.node, shallow=True):
             f = c.func
-            if isinstance(f, ast.Attribute) and isinstance(
-                    f.value, ast.Name) and f.value.id in ms and \
-                    f.attr in MATCH_INDEX_METHODS:
+            h = None
+            if isinstance(f, ast.Name):
+                h = mod.functions.get(f.id)
+                off = 0
+            elif isinstance(f, ast.Attribute) and isinstance(
+                    f.value, ast.Name) and fi.cls is not None and \
+                    fi.params() and f.value.id == fi.params()[0]:
+                h = fi.cls.methods.get(f.attr)
+                off = 1
+            if h is not None:
+                hp = h.params()[off:]
+                for i, a in enumerate(c.args):
+                    if i < len(hp) and isinstance(a, ast.Name) and \
+                            a.id in kinds:
+                        cur = param_kinds.setdefault(h.key, {})
+                        prev = cur.get(hp[i])
+                        k1 = kinds[a.id]
+                        cur[hp[i]] = k1 if prev in (None, k1) else (
+                            'index' if {prev, k1} <= {'index', 'name'}
+                            else 'value')
+                    elif i < len(hp) and isinstance(a, ast.Constant) and \
+                            isinstance(a.value, (int, str)):
+                        cur = param_kinds.setdefault(h.key, {})
+                        k0 = 'index' if isinstance(a.value, int) else 'name'
+                        prev = cur.get(hp[i])
+                        cur[hp[i]] = k0 if prev in (None, k0) else (
+                            prev if {prev, k0} <= {'index', 'name'}
+                            else 'value')
+        for c in model.calls_in(fi.node, shallow=True):
+            f = c.func
+            if isinstance(f, ast.Attribute) and model.norm(
+                    f.value) in ms and f.attr in MATCH_INDEX_METHODS:
                 for a in c.args:
                     n += 1
                     site = '%s/%s-argument' % (fi.key, f.attr)
@@ -345,7 +400,7 @@ def check_match_api(repo, rep):
                        '(and tuples when it has several); walk finditer() '
                        'and take group() instead' % model.norm(c),
                        loc=mod.loc(c), construct=model.norm(c))
-    rep.floor('re.Match API obligations', n, 3)
+    return n
 
 
 class _FlipNot(ast.NodeTransformer):
